@@ -212,6 +212,35 @@ def run(ctx):
                         if prm != 2:
                             ok = False
                             wit = 'published pointer does not derive from the thread-local RefCell argument (traced to %s via %s)' % (prm, steps)
+                    if not ok and is_pub and s['rv']['k'] == 'use':
+                        # the pointer may be handed out of the `with` closure and stored by its caller: it must then be the value the
+                        # closure returns, and that value must derive from the closure's thread-local argument
+                        defs_ = F.single_defs(f)
+                        rs_ = F.roots(f, defs_, s['rv']['x'])
+                        withs_ = [r for r in rs_ if r[0] == 'call' and any(str(r[1]).endswith(w.split('::', 2)[-1]) or str(r[1]) == w for w in WITH)]
+                        if rs_ and len(withs_) == len(rs_):
+                            good = True
+                            for r in withs_:
+                                a1 = r[2]['args'][1] if len(r[2]['args']) > 1 else {}
+                                ck_ = (a1.get('ty') or (a1.get('place') or {}).get('ty') or {}).get('def')
+                                if ck_ is None:
+                                    d_ = defs_.get(F.op_local(a1)) if F.op_local(a1) is not None else None
+                                    if d_ and d_[0] == 'rv' and d_[1]['k'] == 'aggregate':
+                                        ck_ = d_[1].get('def')
+                                cf_ = facts.fns.get(ck_)
+                                if cf_ is None:
+                                    good = False
+                                    break
+                                prm_, steps_ = trace_to_param(cf_, 0)
+                                if prm_ != 2:
+                                    good = False
+                                lks_ = wc.get(ck_, (None, []))[1] if ck_ in wc else []
+                                for lk in lks_:
+                                    backing = [st for st in facts.statics if st['path'].startswith(lk + '::')]
+                                    if not backing or not all(st['thread_local'] for st in backing):
+                                        good = False
+                            if good:
+                                ok = True
                     ctx.instance(rid, inst, ok=ok, site=s['at'])
                     if not ok:
                         ctx.violation(rid, key, 'description_cs' if is_slot else 'c_err-out-pointer',
